@@ -10,7 +10,8 @@
     * `Document.cut_selection` / `selection_ranges` for a CHARACTERS / LINES selection in Vi mode
     * the operators `d c y` (+ `"x` register variants), `g? gu gU g~`, `> <`
     * the text objects `h l 0 $ ^ w W b B e E f F t T iw aw iW aW j k G gg`,
-      brackets `i( a( …` and quotes `i" a" …`, built on re-modelled `Document` queries
+      brackets `i( a( …`, quotes `i" a" …`, `;` `,` (with the last character find as state),
+      built on re-modelled `Document` queries
     * the argument multiplication of `create_text_object_decorator`.
 
   Conventions: text = `List Char`; absolute positions the code keeps non-negative are `Nat`,
@@ -386,6 +387,9 @@ inductive Motion
   | j | k | G | gg
   | bracket (l r : Char) (inner : Bool)
   | quote (q : Char) (inner : Bool)
+  /-- `;` (`reverse = false`) / `,` (`reverse = true`): repeat the last `f F t T`;
+      `last` = `vi_state.last_character_find` as `(character, backwards)` -/
+  | repeatFind (last : Option (Char × Bool)) (reverse : Bool)
   | raw (o : TextObject)
 deriving Repr, DecidableEq
 
@@ -449,7 +453,29 @@ def textObject (isSpace sp : Char → Bool) (d : Doc) (count : Nat) : Motion →
       let off : Int := if inner then 0 else 1
       { start := s + 1 - off, stop := e + off }
     | _, _ => { start := 0 }
+  | .repeatFind last reverse =>
+    match last with
+    | none => { start := 0 }
+    | some (c, bw) =>
+      -- `if reverse: backwards = not backwards`; only the forward search is INCLUSIVE
+      if (if reverse then !bw else bw) then
+        match findBwd d c true count with
+        | some p => if p ≠ 0 then { start := p } else { start := 0 }
+        | none => { start := 0 }
+      else
+        match findFwd d c true count with
+        | some p => if p ≠ 0 then { start := p, type := .inclusive } else { start := 0 }
+        | none => { start := 0 }
   | .raw o => o
+
+/-- `vi_state.last_character_find = CharacterFind(event.data, backwards)` as set by the
+    `f F t T` handlers (also when the search fails; `t`/`T` are remembered as `f`/`F`) -/
+def lastFindOf : Motion → Option (Char × Bool)
+  | .f c => some (c, false)
+  | .t c => some (c, false)
+  | .F c => some (c, true)
+  | .T c => some (c, true)
+  | _ => none
 
 /-- `KeyPressEvent.arg` of a typed / computed argument: "don't exceed a million" -/
 def normArg (n : Nat) : Nat := if n ≥ 1000000 then 1 else n
@@ -517,5 +543,18 @@ def moveAlone (env : Env) (s : St) (motArg : Option Nat) (m : Motion) : Nat :=
 
 def moveAloneKeys (env : Env) (s : St) (motArg : Option Nat) (m : Motion) : Nat :=
   fixViCursor s.text (moveAlone env (if motArg.isSome then s.fix else s) motArg m)
+
+/-- `[count] f|F|t|T <c>` typed as a movement, then `[count] <operator> [count] ;|,` : the
+    character find moves the cursor and leaves `last_character_find` for the repeat motion -/
+def runKeysAfterFind (env : Env) (s : St) (findArg : Option Nat) (fm : Motion)
+    (opArg : Option Nat) (op : Op) (motArg : Option Nat) (reverse : Bool) : Option St :=
+  runKeys env { s with cur := moveAloneKeys env s findArg fm } opArg op motArg
+    (.repeatFind (lastFindOf fm) reverse)
+
+/-- the same with the repeat motion typed alone -/
+def moveAloneKeysAfterFind (env : Env) (s : St) (findArg : Option Nat) (fm : Motion)
+    (motArg : Option Nat) (reverse : Bool) : Nat :=
+  moveAloneKeys env { s with cur := moveAloneKeys env s findArg fm } motArg
+    (.repeatFind (lastFindOf fm) reverse)
 
 end Ptk.C08
